@@ -104,7 +104,7 @@ def _run(case):
             ps = Proxyserver();
             try: tctx.master.addons.add(ps)
             except Exception: pass
-            tctx.configure(cp, client_replay_concurrency=1)
+            tctx.configure(cp, client_replay_concurrency=case.get("conc0", 1))
             flows = [make_flow(kind, k) for k, kind in enumerate(case["flows"])]
             pre = {}      # flow index -> snapshot right before the start_replay call that queued it (earliest pending)
             srv = Srv(trace, loop)
@@ -120,7 +120,9 @@ def _run(case):
             put0, get0, getnw0 = q.put_nowait, q.get, q.get_nowait
             def put_nowait(f): trace.append(["enq", flows.index(f)]); return put0(f)
             async def get():
-                f = await get0(); trace.append(["take", flows.index(f)]); return f
+                f = await get0()
+                # the option value at the moment the replay is started
+                trace.append(["take", flows.index(f), tctx.options.client_replay_concurrency]); return f
             q.put_nowait, q.get = put_nowait, get
             try:
                 loop.call_soon(cp.running); loop.pump()
@@ -146,7 +148,8 @@ def _run(case):
                             if i not in pre or not pending: pre[i] = before[i]
                     elif k == "stop":
                         queued = [flows.index(f) for f in cp.queue._queue]
-                        infl = flows.index(cp.inflight) if cp.inflight is not None else -1
+                        infl = sorted(set(([flows.index(cp.inflight)] if cp.inflight is not None else []) +
+                                          [i for i, f in enumerate(flows) if f.live and case["flows"][i] != "live"]))
                         loop.call_soon(cp.stop_replay); loop.pump()
                         after = {i: snapshot(flows[i]) for i in queued}
                         trace.append(["stop", queued, sorted(set(i for i in queued if after[i] != pre[i])),
@@ -173,6 +176,10 @@ def _run(case):
                             live[0]["r"].feed_eof(); loop.pump()
                     elif k == "tick":
                         loop.advance(step[1]); loop.pump()
+                    elif k == "opt":
+                        # the user switches client_replay_concurrency at runtime
+                        trace.append(["opt", step[1]])
+                        loop.call_soon(lambda v=step[1]: tctx.options.update(client_replay_concurrency=v)); loop.pump()
                     elif k == "winddown":
                         # liveness exploration: the server refuses / closes everything still pending
                         trace.append(["winddown"])
@@ -184,7 +191,7 @@ def _run(case):
                             loop.pump()
                     trace.append(["state", [flows.index(f) for f in cp.queue._queue],
                                   flows.index(cp.inflight) if cp.inflight is not None else -1,
-                                  [flags(f) for f in flows]])
+                                  [flags(f) for f in flows], tctx.options.client_replay_concurrency, len(cp.replay_tasks)])
                 loop.call_soon(lambda: asyncio.ensure_future(cp.done())); loop.pump()
             finally:
                 asyncio.open_connection = orig
